@@ -152,7 +152,7 @@ func (g G) planC13() *Plan {
 	o := &mixOpts{family: "logout",
 		world: worldOpts{nilUnknownPct: 12, maxSPs: 3, maxUsers: 2, maxReplicas: 2, hardPct: 10, hardURLPct: 35, sloVariety: true, parkVariety: true, issuerVariety: true, endpointVariety: true,
 			skewPct: 35, timeFormatVariety: true},
-		wSLO: 55, wSSO: 3, wMeta: 1, wResume: 22, wFinish: 12, wAdvance: 4, wRereg: 4, wDelSP: 2, wRestart: 1,
+		wSLO: 55, wSSO: 3, wMeta: 2, wAttrQ: 2, wCallback: 2, wCert: 1, wResume: 22, wFinish: 12, wAdvance: 4, wRereg: 4, wDelSP: 2, wRestart: 1,
 		devPct: 30, tamperPct: 10, timePct: 40, bodyFaultPct: 5, writeFaultPct: 2, rogueSPPct: 8, hostVariety: true,
 		minSteps: 3, maxSteps: 30, autoFinishPct: 40}
 	p := g.planMix("C13", o)
@@ -340,7 +340,7 @@ func oracleC12(r *Result) {
 func (g G) planC12() *Plan {
 	o := &mixOpts{family: "attribute-queries",
 		world:  worldOpts{nilUnknownPct: 12, maxSPs: 3, maxUsers: 4, maxReplicas: 2, hardPct: 15, customAttrs: true, parkVariety: true, issuerVariety: true, endpointVariety: true, noCertPct: 15},
-		wAttrQ: 55, wMeta: 2, wSSO: 2, wResume: 25, wFinish: 12, wRotate: 4, wRereg: 3, wDelSP: 1, wRestart: 1, wAdvance: 2,
+		wAttrQ: 55, wMeta: 2, wSSO: 2, wSLO: 2, wCallback: 2, wCert: 1, wResume: 25, wFinish: 12, wRotate: 4, wRereg: 3, wDelSP: 1, wRestart: 1, wAdvance: 2,
 		devPct: 35, tamperPct: 25, faultPcts: []int{0, 0, 10, 25}, bodyFaultPct: 6, rogueSPPct: 10, hostVariety: true,
 		minSteps: 3, maxSteps: 30, autoFinishPct: 35}
 	return g.planMix("C12", o)
